@@ -132,6 +132,7 @@ def tlc(ctx, family, module, cfg, workers="auto", extra=(), env=None, timeout=18
         cmd.insert(-1, "-deadlock")
     t = time.time()
     rc, out = run(cmd, cwd=d, env=env, timeout=timeout)
+    open(os.path.join(d, "tlc.out"), "w").write(out)
     res = dict(rc=rc, out=out, dir=d, generated=0, distinct=0, depth=0, wall=time.time() - t, name=name)
     m = RE_STATES.findall(out)
     if m:
